@@ -89,6 +89,13 @@ def space(tier):
             for w in (8, 32, 64) if tier == "quick" else (8, 16, 32, 64):
                 for tiled in (True, False):
                     cases.append(("conv", k, oo, w, tiled))
+    # strided / dilated convolution-like accesses: stride * (4*o_outer + o_inner) + dilation * k
+    for k in (2, 3):
+        for oo in (1, 2):
+            for stride, dil in ((2, 1), (1, 2), (2, 3), (3, 2)):
+                for w in (8, 64):
+                    for tiled in (True, False):
+                        cases.append(("convs", k, oo, stride, dil, w, tiled))
     for n_outer in (1, 2, 3, 5) if tier == "quick" else range(1, 18):
         for w in (8, 16, 32, 64):
             for tiled in (True, False):
@@ -148,6 +155,13 @@ def build(case):
         W = [[1, 0, 0]]
         Y = [[0, 4, 1]]
         return "snax_alu", [(O + k - 1,), (k,), (O,)], [w, w, w], [X, W, Y], [k, oo, 4], 2, tiled, None
+    if kind == "convs":
+        _, k, oo, stride, dil, w, tiled = case
+        O = oo * 4
+        X = [[dil, 4 * stride, stride]]
+        W = [[1, 0, 0]]
+        Y = [[0, 4, 1]]
+        return "snax_alu", [(stride * (O - 1) + dil * (k - 1) + 1,), (k,), (O,)], [w, w, w], [X, W, Y], [k, oo, 4], 2, tiled, None
     if kind == "ew1":
         _, no, w, tiled = case
         m = [[4, 1]]
